@@ -2,7 +2,7 @@
 PROPS['C34'] = dict(
     target='Props/C34',
     theorems=['C34_seq', 'C34_once', 'C34_refuted_reorder', 'C34_partial', 'C34_skipped_forever'],
-    ties=[dict(name='TIE-S blocks', vh='blocks', model='blocks', n=dict(quick=1200, thorough=30000), kinds=['C34'])],
+    ties=[dict(name='TIE-S blocks', vh='blocks', model='blocks', n=dict(quick=800, thorough=30000), kinds=['C34'])],
     rule='event scripts of 4..17 events from one PRNG (VERIF_SEED) over 2-3 writers: alloc (begin an explicit SQL transaction on the real ledger store and InsertLog a '
          'SET_METADATA/DELETE_METADATA log with adversarial strings; the id is drawn by nextval), commit, abort, run (the real AsyncBlockRunner issues call create_blocks(ledger, size), '
          'size in {1,2,3,10}); 90% of the scripts end at quiescence (pending writers finish in random order, then a run); interleavings are chosen by the script at store-call granularity '
